@@ -29,7 +29,7 @@ PROPS = {
     'C01': P('C01', 48000, 4000000, modules=['D128.Props.C01'] + KERNEL + PROLOGUE + SPECM, kernel=ROUNDING_KERNELS + ['Decimal.add']),
     'C02': P('C02', 48000, 4000000, modules=['D128.Props.C02', 'D128.Props.C02Quo', 'D128.Proofs.Words128Div'] + KERNEL + PROLOGUE + SPECM, kernel=ROUNDING_KERNELS),
     'C03': P('C03', 32000, 2000000, modules=['D128.Props.C03', 'D128.Proofs.Words128Div'] + KERNEL + PROLOGUE + SPECM, kernel=['U128.div', 'U128.mul64', 'RoundingMode.reduce128', 'RoundingMode.round']),
-    'C04': P('C04', 16000, 1500000, modules=['D128.Props.C04'] + SPECM, kernel=['U128.cmp', 'U128.div1*', 'U128.div10*', 'Decimal.Cmp', 'Decimal.CmpAbs', 'Decimal.Equal']),
+    'C04': P('C04', 16000, 1500000, modules=['D128.Props.C04', 'D128.Props.C04b'] + SPECM, kernel=['CmpResult.*', 'U128.cmp', 'U128.div1*', 'U128.div10*', 'Decimal.Cmp', 'Decimal.CmpAbs', 'Decimal.Equal']),
     'C05': P('C05', 32000, 2000000, modules=['D128.Props.C05', 'D128.Props.C05Value', 'D128.Props.C05Scan'] + KERNEL, kernel=['parseNumber', 'parse', 'RoundingMode.reduce128', 'Decimal.Scan', 'MustParse'], extra_gens=['FMT']),
     'C06': P('C06', 16000, 1500000, modules=['D128.Props.C06', 'D128.Props.C06b', 'D128.Props.C07c', 'D128.Props.C05', 'D128.Props.C05Value', 'D128.Props.C05Scan'] + KERNEL, kernel=['Decimal.digits_', 'U128.div100', 'parseNumber', 'RoundingMode.reduce128', 'digits.fmtE', 'digits.fmtF', 'Decimal.appendSpecial', 'Decimal.String', 'Decimal.MarshalText', 'Format', 'Append', 'Decimal.Format', 'Decimal.writeSpecial', 'Decimal.Scan'], extra_gens=['FMT']),
     'C07': P('C07', 16000, 1500000, modules=['D128.Props.C07', 'D128.Props.C07b', 'D128.Props.C07c'], kernel=['digits.round', 'parseFormat', 'Decimal.digits_', 'formatArgs.*', 'digits.fmtE', 'digits.fmtF', 'digits.pad', 'Decimal.appendSpecial', 'Decimal.format', 'Decimal.Append', 'Append', 'Format', 'Decimal.String', 'Decimal.MarshalText', 'Decimal.Format', 'Decimal.writeSpecial'], extra_gens=['FMT']),
